@@ -2720,7 +2720,7 @@ class Interp:
             its = literal_items(args[1], self.unname)
             if its is not None and len(its) <= 8 and \
                     (its or len(args) == 3) and \
-                    self.unname(args[0]).op in ("closure", "func"):
+                    self.unname(args[0]).op in ("closure", "func", "global"):
                 acc = args[2] if len(args) == 3 else its[0]
                 for x in (its if len(args) == 3 else its[1:]):
                     acc = self.do_call(self.unname(args[0]), [acc, x], [],
